@@ -3,12 +3,12 @@ module verifharness
 go 1.21
 
 require (
+	github.com/fatih/color v1.15.0
 	github.com/sboehler/knut v0.0.0
 	github.com/shopspring/decimal v1.3.1
 )
 
 require (
-	github.com/fatih/color v1.15.0 // indirect
 	github.com/mattn/go-colorable v0.1.13 // indirect
 	github.com/mattn/go-isatty v0.0.19 // indirect
 	github.com/sourcegraph/conc v0.3.0 // indirect
